@@ -12,6 +12,7 @@ import (
 	"verifharness/gstore"
 	"verifharness/qry"
 	"verifharness/sup"
+	"verifharness/trav"
 	"verifharness/val"
 
 	"github.com/bmeg/grip/engine/pipeline"
@@ -66,6 +67,19 @@ func (h *handler) Handle(req map[string]interface{}) interface{} {
 			resp["harness_err"] = err.Error()
 			return resp
 		}
+	}
+	if sl, _ := req["selfloops"].(bool); sl {
+		for k := range vals {
+			id := fmt.Sprintf("v%02d", k)
+			if err := g.AddEdge([]*gdbi.Edge{{ID: "s" + id, Label: "selfloop", From: id, To: id, Data: map[string]interface{}{}, Loaded: true}}); err != nil {
+				resp["harness_err"] = err.Error()
+				return resp
+			}
+		}
+	}
+	if nl, _ := req["noload"].(bool); nl {
+		// a backend that honours the do-not-load hint: load elision becomes observable
+		g = &trav.NoLoadGraph{GraphInterface: g}
 	}
 	pre, _ := req["pre"].([]interface{}) // statements between V() and aggregate (optional)
 	results := []interface{}{}
